@@ -114,6 +114,14 @@ inductive Framing
   | invalid                           -- outside the agreed domain (RFC: error, or forms the parsers disagree on)
   deriving DecidableEq, Repr
 
+/-- Content-Length values that may accompany `Transfer-Encoding: chunked` (which overrides them): none, or all equal
+    (trailing spaces aside) to one `1*DIGIT` value below 2^62 -/
+def clValuesOk : List Bytes → Bool
+  | [] => true
+  | v :: rest =>
+    let d := trimRightSpaces v
+    rest.all (fun w => trimRightSpaces w == d) && d ≠ [] && d.all isNum && decimal d < 2 ^ 62
+
 /-- RFC 7230 §3.3.3 for a request / a response with framing headers, restricted to the forms both
     implementations support: a single `Transfer-Encoding: chunked` overrides Content-Length (rule 3); otherwise a
     single Content-Length of 1*DIGIT gives the length (rules 4, 5); neither: no body (rule 6).
@@ -121,7 +129,7 @@ inductive Framing
 def rfc7230Framing (fs : List (Bytes × Bytes)) : Framing :=
   match valuesOf fs (str "Transfer-Encoding") with
   | [v] =>
-    if (trim v).map toLower = str "chunked" then
+    if (trim v).map toLower = str "chunked" ∧ clValuesOk (valuesOf fs (str "Content-Length")) = true then
       let announced := declaredKeys (valuesOf fs (str "Trailer"))
       -- §4.1.2: a trailer must not contain fields needed for message framing
       if announced.any forbiddenTrailer then .invalid else .chunked announced.eraseDups
